@@ -304,7 +304,8 @@ def run(chk):
     umeta = {}
     pairs = list(itertools.product(TNAMES, TNAMES))
     if not thorough:
-        pairs = rng.sample(pairs, 200)
+        half = rng.sample(pairs, 110)
+        pairs = sorted(set(half) | set((b, a) for (a, b) in half))      # both orders of every sampled pair
     steps = list(base)
     spec = []
     for (a0, b0) in pairs:
@@ -313,7 +314,10 @@ def run(chk):
                           ("union3", f"SELECT {a} AS r FROM ty UNION ALL SELECT {b} FROM ty UNION ALL SELECT {a} FROM ty"),
                           ("values", f"SELECT * FROM (VALUES ({lit[a0]}), ({lit[b0]})) v(r)"),
                           ("case", f"SELECT CASE WHEN id > 2 THEN {a} ELSE {b} END AS r FROM ty"),
-                          ("coalesce", f"SELECT COALESCE({a}, {b}) AS r FROM ty")):
+                          ("coalesce", f"SELECT COALESCE({a}, {b}) AS r FROM ty"),
+                          # several mismatched columns unified in opposite directions within one set operation
+                          ("union2", f"SELECT {a} AS r, {b} AS q FROM ty UNION ALL SELECT {b}, {a} FROM ty"),
+                          ("union3col", f"SELECT {a} AS r, id AS i, {b} AS q FROM ty UNION ALL SELECT {b}, id, {a} FROM ty WHERE id < 3")):
             steps.append({"sql": "DESCRIBE " + sql})
             spec.append((a0, b0, kind, "desc", sql))
             steps.append({"sql": sql})
@@ -329,12 +333,23 @@ def run(chk):
         ucases.append(c)
         umeta[c["id"]] = spec
     results, _ = vrun.run_sharded(ucases, shards=16, wall_s=900)
+    union_ran = {}
+    # first pass: which single-column unions ran
+    for c in ucases:
+        r = results.get(c["id"])
+        if r is None or "steps" not in r:
+            continue
+        for s, (a, b, kind, what, sql) in zip(r["steps"][nb:], umeta[c["id"]]):
+            if kind == "union" and what == "run" and s["outcome"] in ("rows", "empty") and not s.get("mismatch"):
+                union_ran[(a, b)] = True
     for c in ucases:
         r = results.get(c["id"])
         if r is None or "steps" not in r:
             chk.inconc("unification case not run")
             continue
         last_desc = None
+        for s, (a, b, kind, what, sql) in zip(r["steps"][nb:], umeta[c["id"]]):
+            pass
         for s, (a, b, kind, what, sql) in zip(r["steps"][nb:], umeta[c["id"]]):
             if s["outcome"] == "skipped":
                 break
@@ -352,7 +367,13 @@ def run(chk):
             if s["outcome"] == "error":
                 if last_desc is not None:
                     chk.count("unification bound by DESCRIBE but failed when run")
+                    if kind in ("union2", "union3col") and union_ran.get((a, b)) and union_ran.get((b, a)):
+                        # every column of this set operation unifies and casts fine on its own (both directions ran above)
+                        first = (s.get("error") or "").split("\n")[0]
+                        chk.violation({"kind": "multi-column-setop-fails", "form": kind}, f"{sql}\n  DESCRIBE announces {last_desc}, each column pair unifies and runs on its own, but the statement fails: {first}", replay)
                 continue
+            if kind == "union":
+                union_ran[(a, b)] = True
             if last_desc is None:
                 chk.violation({"kind": "describe-fails-but-runs", "form": kind}, f"{sql}: runs, but DESCRIBE of it fails", replay)
                 continue
